@@ -230,7 +230,9 @@ class ErrorTree(object):
         for error in errors:
             container = self
             for element in error.path:
-                container = container[element]
+                # not ``container[element]``: an error's path may name an
+                # element the recorded instance does not have
+                container = container._contents[element]
             container.errors[error.validator] = error
 
             container._instance = error.instance
